@@ -147,7 +147,12 @@ def evaluate(ctx, cases):
                     bg.center_extrema = o.get('center_extrema', 'peak'); bg.burst_method = o.get('burst_method', 'cycles')
                     bg.burst_kwargs = {} if o.get('burst_kwargs') is None else o.get('burst_kwargs'); bg.thresholds = o.get('threshold_kwargs')
                     bg.find_extrema_kwargs = o.get('find_extrema_kwargs') or {'filter_kwargs': {'n_cycles': 3}}; bg.return_samples = c['rs']
-                implutil.quiet(bg.fit, sigs, fs, fr, axis=0, n_jobs=c['n_jobs'], progress=c['progress'])
+                target = sigs
+                if c['seed'] % 3 == 0:      # a buffer history: fitted on a buffer holding the rows in reverse order, the buffer is refilled IN PLACE, fitted again (same settings)
+                    target = np.array(sigs[::-1])
+                    implutil.quiet(bg.fit, target, fs, fr, axis=0, n_jobs=1)
+                    target[:] = sigs
+                implutil.quiet(bg.fit, target, fs, fr, axis=0, n_jobs=c['n_jobs'], progress=c['progress'])
                 res, models = bg.df_features, bg.models
             err = None
         except Exception as e:
